@@ -90,6 +90,21 @@ def battery(seed):
                     'hist': {repr(u): canon(inv.node_history(u)) for u in G.nodes()},
                     'trans': canon([(a, repr(b), repr(c)) for a, b, c in inv.transmissions()])}
         go('simple/SIRS/%s/full' % kind, simple_full)
+        # the same on a DIRECTED contact network (the directed branch of the bookkeeping has its own loops over
+        # successors / predecessors): still independent of the interpreter's hash seed
+        rr = random.Random(11)
+        DG = nx.DiGraph(); DG.add_nodes_from(L)
+        for a, b in G.edges():
+            x = rr.random()
+            if x < 0.4: DG.add_edge(a, b)
+            elif x < 0.8: DG.add_edge(b, a)
+            else: DG.add_edge(a, b); DG.add_edge(b, a)
+        go('simple/SIRS/%s/directed/plain' % kind, lambda: canon(EoN.Gillespie_simple_contagion(DG, H, J, dict(IC), ('Sus', 'Inf', 'Rec'), tmax=4)))
+        def simple_dfull():
+            inv = EoN.Gillespie_simple_contagion(DG, H, J, dict(IC), ('Sus', 'Inf', 'Rec'), tmax=4, return_full_data=True)
+            return {'hist': {repr(u): canon(inv.node_history(u)) for u in DG.nodes()},
+                    'trans': canon([(a, repr(b), repr(c)) for a, b, c in inv.transmissions()])}
+        go('simple/SIRS/%s/directed/full' % kind, simple_dfull)
         H2 = nx.DiGraph(); H2.add_edge('E', 'I', rate=0.6, weight_label='rw'); H2.add_edge('I', 'R', rate=1.0)
         J2 = nx.DiGraph(); J2.add_edge(('I', 'S'), ('I', 'E'), rate=1.0, weight_label='tw')
         IC2 = {u: 'S' for u in L}; IC2[L[1]] = 'I'
